@@ -80,7 +80,7 @@ def TemplateKids(ch: List[Elem], i: int) -> List[XNode]:
 
 @contract("Section.generate_repeating_template")
 def _(self: Obj("Section", name=str, children=List[Elem]), survey: S, **kwargs: Dict[str, str]) -> XNode:
-    properties("C04", "C02", "C17")
+    properties("C04", "C02", "C17", "C10")
     no_native("needs survey-element objects: exercised through the e2e oracles")
     may_raise(PyXFormError, when=True)
     ch = self.children
@@ -297,12 +297,12 @@ def _(self: GroupK, survey: SurveyS) -> Opt[XNode]:
     Cd = some(self.control)
     ch = self.children
     bodyless = bool(self.control) and bool(Cd.get("bodyless"))
-    nl = 1 if bool(self.label) else 0
+    nl = 1 if (bool(self.label) or bool(self.media)) else 0
     # a group marked bodyless (the generated meta block) has no control
     ensures((result is None) == bodyless)
     ensures(implies(not bodyless, some(result).nodeType == 1 and some(result).tagName == "group"))
-    # C04: the group's label first (when it has one), then the controls of its child rows in sheet order, nothing else
-    ensures(implies(not bodyless and bool(self.label), some(result).kids[0] == LabelNode(self, survey)))
+    # C04: the group's label element first (when it has a label or media to show), then the controls of its child rows in sheet order, nothing else
+    ensures(implies(not bodyless and (bool(self.label) or bool(self.media)), some(result).kids[0] == LabelNode(self, survey)))
     ensures(implies(not bodyless, some(result).kids[nl:] == ControlKids(ch, len(ch)) and len(some(result).kids) >= nl))
     # C02: a group that has an instance node is bound to it by ref = its own path; a flat group has no ref
     ensures(implies(not bodyless and not bool(self.flat), "ref" in some(result).attrs
@@ -317,7 +317,7 @@ def _(self: GroupK, survey: SurveyS) -> Opt[XNode]:
     @loop(0, index="i")
     def _():
         invariant(len(children) == nl + i and children[nl:] == ControlKids(ch, len(ch))[:i])
-        invariant(implies(bool(self.label), children[0] == LabelNode(self, survey)))
+        invariant(implies(bool(self.label) or bool(self.media), children[0] == LabelNode(self, survey)))
 
 
 @spec
